@@ -144,6 +144,30 @@ def corr_intr(n_quick, n_thorough):
     return run
 
 
+def cbraise_check(ctx, chk, out, cov, per):
+    """real vs real: a request raised from inside a Memory / IO callback during Step j = the same request raised at the boundary after
+    Step j (every opcode slot, bus accesses 1..4 of the Step, NMI and a maskable request)"""
+    import os
+    vec = chk.gen_vectors('slots', ['-seed', str(ctx.seed + 13), '-per', str(per)])
+    lines = [l for l in vec.splitlines() if l.strip()]
+    rc, mo = chk.sh([os.path.join(chk.WORK, 'harness'), 'cbraise'], inp='\n'.join(lines) + '\n', timeout=3600)
+    ml = [l for l in mo.splitlines() if l and not l.startswith('WARNING')]
+    byid = {l.split(' ', 1)[0]: l for l in lines}
+    n_same = 0
+    for l in ml:
+        vid, _, rest = l.partition(' ')
+        if rest == 'same':
+            n_same += 1
+        elif rest != 'skipped':
+            out.append({'stream': 'callback-raise', 'id': vid, 'vector': byid.get(vid, ''), 'real': rest[:2500],
+                        'other': 'a request raised by a callback while an instruction executes is honoured at the next boundary exactly as if it had been raised there; the instruction in progress must not notice it'})
+    if len(ml) != len(lines):
+        out.append({'stream': 'callback-raise', 'id': 'length', 'vector': mo[-1500:], 'real': f'{len(ml)} answers for {len(lines)} vectors', 'other': None})
+    cov['evaluations'] = cov.get('evaluations', 0) + 2 * n_same
+    cov.setdefault('correspondence', {})['callback_raise_vectors'] = n_same
+    cov['rule'] = cov.get('rule', '') + ' | callback-raise (real vs real): every opcode slot, a request (NMI / maskable) raised from inside the callback of the 1st..4th bus access of the Step vs the same request raised at the boundary after that Step; whole result lines must be equal'
+
+
 def corr_c14(ctx, chk, broken):
     """C14: every slot (R and I are part of the compared state), plus Steps that ACCEPT or refuse a request: R must not move when a
     request is accepted (no opcode fetch happens).  Mode-0 deviations that are the recorded known finding belong to C06 and are dropped."""
@@ -159,6 +183,7 @@ def corr_c14(ctx, chk, broken):
     cov['evaluations'] = cov.get('evaluations', 0) + stats.get('vectors', 0)
     cov.setdefault('correspondence', {})['interrupt_vectors'] = stats.get('vectors', 0)
     cov['rule'] = cov.get('rule', '') + ' | plus 1-2 Steps from states with a pending request (kind x IM x IFF1 x IFF2 x halted): an accepting Step leaves IR alone'
+    cbraise_check(ctx, chk, out, cov, 6 if ctx.tier == 'thorough' else 1)
     return out, cov
 
 
@@ -647,6 +672,7 @@ def corr_c10(n_quick, n_thorough):
                 out.append({'stream': 'memkinds', 'id': vid, 'vector': byid.get(vid, ''), 'real': rest[:1500], 'other': 'the outcome must not depend on what kind of object the memory is (harness memory vs z80.DumbMemory vs z80.MapMemory holding the same bytes)'})
         if len(ml) != len(mk):
             out.append({'stream': 'memkinds', 'id': 'length', 'vector': mo[-1500:], 'real': f'{len(ml)} answers for {len(mk)} vectors', 'other': None})
+        cbraise_check(ctx, chk, out, cov, 2 if ctx.tier == 'thorough' else 1)
         exe, race = race_bin(chk)
         parvec = '\n'.join([l for l in lines if l.startswith('inj-')][:400]) + '\n' + chk.gen_vectors('run', ['-seed', str(ctx.seed), '-n', '200'])
         g = 16 if ctx.tier == 'thorough' else 8
@@ -720,7 +746,8 @@ def corr_c08(ctx, chk, broken):
     cov['correspondence']['run_vs_step_pairs'] = pairs
     cov['correspondence']['run_vs_step_results'] = codes
     cov['rule'] += (' | callbacks: programs with port traffic (OTIR/OTDR/INIR, handlers at 0038h/0066h/0080h) run once by CPU.Run and once by CPU.Step with the stop rule applied externally, '
-                    'while the DEVICE CALLBACK raises NMI / a maskable request at the k-th port access, k over all port accesses (real vs real; breakpoints on handler addresses in 30%)')
+                    'while the DEVICE CALLBACK raises NMI / a maskable request at the k-th port access, k over all port accesses, or REPLACES the breakpoint set as a whole (HALT address / handler addresses / nil / empty) (real vs real; breakpoints on handler addresses in 30%)')
+    cbraise_check(ctx, chk, out, cov, 4 if ctx.tier == 'thorough' else 1)
     return out, cov
 
 
